@@ -88,6 +88,8 @@ def oracle_events(ins, evs):
             exp = []
         if list(vals) != exp:
             where = "top level" if not sp.calls else f"call depth {len(sp.calls) + 1}"
+            if op == "I" and sp.calls and not sp.calls[-1][0]:
+                where += " (a call without arguments: nothing to cycle over, the implementation's 0 is the baseline)"
             return f"operation {i} ({op}{'' if arg is None else arg}) at {where} read {list(vals)}, the property requires {exp}"
     return None
 
@@ -272,6 +274,7 @@ def histories_part(env, stats):
             if k not in seen:
                 seen.add(k)
                 hs.append(h)
+    hs.sort(key=len)                      # the first failing input reported is a shortest one
     stats["exhaustive_histories"] = len(hs)
     work = [(ins, h) for h in hs for ins in INPUT_LISTS]
     nrand = env.budget(3000, 40000)
